@@ -237,3 +237,23 @@ def pair_cases(exe, scratch, rng, quick=True):
                     c["_class"] = name
                     cases.append(c)
     return cases
+
+
+def timeout_cases(exe, scratch, rng):
+    """-u 2: h0 hangs (timed out by the watchdog), h1 is slow (its output comes a second too late), h2 waits for a slot.
+    A signal at every position of a base run - so also between the watchdog's lock(thd_mutex), its pthread_kill and
+    its unlock, and while the interrupted worker forwards SIGTERM - for the plans -b ^C, ^C, ^C ^C, ^C ^Z."""
+    hosts = [{"name": "h0", "out": [[50, "EOF"]]}, _host(1, out_at=3), _host(2)]
+    skel = dict(BASE, fanout=2, hosts=hosts, opts=dict(OPTS, ut=2), tickrate=120)
+    b = sched.run_case(exe, dict(skel, strategy="uniform", seed=rng.randrange(1, 1 << 30), choices=[], signals=[]), scratch)
+    L = len(b["steps"])
+    cases = []
+    for p in range(0, L + 1):
+        for plan, sigs, batch in (("int", [SIGINT], 1), ("int", [SIGINT], 0), ("int-int", [SIGINT, SIGINT], 0),
+                                  ("int-tstp", [SIGINT, SIGTSTP], 0)):
+            c = dict(skel, opts=dict(skel["opts"], batch=batch), strategy="uniform", seed=rng.randrange(1, 1 << 30),
+                     signals=[[p, sigs[0]]] + [[p + 4, sg] for sg in sigs[1:]], choices=b["choices"][:p] + ["Z"] * 40)
+            c["_plan"] = plan
+            c["_class"] = "timeouts/every-position"
+            cases.append(c)
+    return cases
